@@ -61,23 +61,75 @@
 (*   Tick              discrete clock; both keys lose one tick of remaining lifetime and      *)
 (*                     vanish at 0 (key TTL and the explicit ExpiresAt check coincide)        *)
 (*                                                                                            *)
-(* Backend shape: the store hands back what the configured backend returns for connRec:       *)
+(* THE THREE WRITING STORE OPERATIONS AT STORAGE-CALL GRANULARITY (round 3).  Every session     *)
+(* event above performs its store operation as the sequence of storage calls the code makes     *)
+(* (operators HbCall / UnCall / RegCall, one storage call per application):                     *)
+(*   RefreshConnection(c)     1 Get record (readable? else give up)   2 Set record, lifetime     *)
+(*                            from now   3 Get index (does it still name c?)   4 Set index       *)
+(*   UnregisterConnection(c)  1 Get record   2 Get index (names c?)   3 Delete index             *)
+(*                            4 Delete record                                                    *)
+(*   RegisterConnection(c)    1 Set record   2 Set index                                         *)
+(* The atomic events run all calls in one step.  With InFlight = TRUE one operation at a time    *)
+(* may also run call by call (OpBegin(kind) does the session-layer part and leaves the store     *)
+(* operation parked in front of its first call; OpStep performs one call), with the atomic        *)
+(* events of OTHER connections - handshakes of the same client elsewhere, cleanups, heartbeats -   *)
+(* in between.  As-is the "check index, then write index" pairs (3,4 of Refresh; 2,3 of           *)
+(* Unregister) are not atomic: a handshake elsewhere between check and write lets an old          *)
+(* connection's heartbeat point the index back (deviation "staleIdxWrite") or an old               *)
+(* connection's cleanup erase the new registration (deviation "staleIdxDelete").  Repairs          *)
+(* "atomicRenew" / "atomicDelete" (NOT in the tree: they need a compare-and-set / compare-and-     *)
+(* delete the tiered backend does not provide) make the respective pair one step.                 *)
+(* Alternative designs of the refresh (constants; every one has a *_show_*.cfg):                   *)
+(*   IdxRenew = "checkSet" (as-is) | "cas" index renewed by CompareAndSwap(idx, c, c, ttl): on a    *)
+(*              backend whose CAS is a stub (`cas` = FALSE: hybrid.Storage, i.e. every server       *)
+(*              wiring) the index is never renewed - deviation "idxNotRenewed" | "blind" Set        *)
+(*              without the check: a buffered heartbeat of a superseded connection moves the        *)
+(*              client back - deviation "blindRenew" | "none" - "idxNotRenewed"                     *)
+(*   RecRenew = "set" (as-is) | "none" record never renewed - "recNotRenewed" | "fromCreated"        *)
+(*              lifetime counted from the first registration - "bornExpired"                        *)
+(*                                                                                            *)
+(* THE OTHER ANSWER TO "WHERE IS CLIENT X": the cloud-control client runtime state                *)
+(* (internal/cloud/services/client/state.go over repos/client_state_repository.go, key              *)
+(* tunnox:runtime:client:state:<x> in the same shared store), cstate[x] = (node, conn) | none:       *)
+(*   ConnectClient(x,n,c)        ServerAuthHandler, when the credential check passes - BEFORE the     *)
+(*                               response is written: also an undeliverable handshake (AuthLost)      *)
+(*                               moves the state - deviation "stateMovedByLost" (repair               *)
+(*                               "stateAfterDelivery", NOT in the tree)                               *)
+(*   EnsureClientOnline(x,n,c)   every heartbeat: touches an existing state whatever it names,        *)
+(*                               rebuilds a missing one as (n,c) - by a superseded connection's        *)
+(*                               heartbeat: deviation "stateRebuiltStale" (needs a missing state,      *)
+(*                               i.e. one of the other two deviations first)                          *)
+(*   DisconnectClientIfMatch(x,n,c)  RemoveControlConnection / the stale sweep's callback, when the    *)
+(*                               registry still has the entry: deletes the state iff it names (n,c).   *)
+(*                               KickOldControlConnection drops the entry first, so the close that      *)
+(*                               follows leaves the state - deviation "stateKeptByKick" (repair         *)
+(*                               "kickDisconnects", NOT in the tree; the method has no caller in the     *)
+(*                               server).                                                              *)
+(* Its lifetime (90 s against 30 s heartbeats, not configurable) is not modelled.  Deviations of this    *)
+(* sub-model are recorded in sdev[x]; invariants StateLive / StateClosed (...OrDev, StateRepaired).      *)
+(* ClientState = FALSE switches the sub-model off (cstate stays empty; the invariants hold trivially     *)
+(* except StateLive).                                                                                   *)
+(*                                                                                            *)
+(* Backend: the store hands back what the configured backend returns for connRec:             *)
 (*   "ptr" (memory backend: the *Info that was stored), "str" (Redis: JSON string),           *)
 (*   "map" (JSON-decoded map).  GetConnectionState type-switches on it and, as-is, has no     *)
-(*   case for the pointer (fix "ptrShape").                                                   *)
+(*   case for the pointer (fix "ptrShape").  `cas` = the backend's CompareAndSwap works.       *)
 (*                                                                                            *)
-(* Every behaviour starts by fixing `shape` (from Shapes) and `fixes` (from FixSets), so one     *)
-(* TLC run covers every backend shape and both the as-is and the repaired code.                *)
+(* Every behaviour starts by fixing `shape` (from Shapes), `cas` (from CasSet) and `fixes`       *)
+(* (from FixSets), so one TLC run covers every backend and both the as-is and the repaired code. *)
 (*                                                                                            *)
 (* Deviations from the property are recorded per client in dev[x] (reset by x's next          *)
 (* handshake): "shape" (registration stored in a shape lookups cannot read), "lateCleanup"    *)
 (* (an unregister erased an index naming another connection), "ttlLapse" (record or index of  *)
 (* a heart-beating connection ran out), "phase1Moves" (an unfinished handshake re-registered   *)
 (* an older connection over the location of the client's most recent successful handshake),   *)
-(* "lookupErased" (a writing lookup dropped an index that had moved on to a newer connection).  *)
+(* "lookupErased" (a writing lookup dropped an index that had moved on to a newer connection),  *)
+(* and the ones named above.                                                                   *)
 (*   as-is     (fixes = {}):  FindLive is violated (run ConnState_asis.cfg to see the trace); *)
 (*                            FindLiveOrDev, FindClosed hold - every route to a violation     *)
 (*                            goes through a named deviation.                                 *)
+(*   the tree  (fixes = TreeFixes): atomic events: FindLive, NoDev hold (RepairedTree);         *)
+(*                            in-flight operations: FindLiveOrDev - staleIdxWrite/-Delete       *)
 (*   repaired  (fixes = all): FindLive, FindClosed, NoDev hold (invariant Repaired).          *)
 EXTENDS Naturals, Sequences, FiniteSets, TLC, Json
 
@@ -85,18 +137,25 @@ CONSTANTS Nodes, NConns, Clients,  \* connections c1..cN are used in this order 
           TTL,                     \* registration lifetime in ticks (heartbeat period = 1 tick)
           MaxClock, MaxHist,
           Shapes,                  \* backend shapes explored: subset of {"ptr", "str", "map"}
+          CasSet,                  \* backend CompareAndSwap works? subset of BOOLEAN (FALSE = stub, every hybrid wiring)
           FixSets,                 \* sets of repairs explored: subsets of AllFixes
           Causes,                  \* close causes explored: subset of {"peer", "cmd", "sweep", "kick"} (one store effect)
           KeepCreatedAt, UseRequestId,   \* two more alternative designs (see above)
+          IdxRenew, RecRenew,      \* design of the heartbeat refresh (see above)
           Lookups, WritingLookup,  \* two-step lookups explored? / the writing-lookup design
+          InFlight,                \* store operations running call by call explored?
+          ClientState,             \* the cloud-control client runtime state (cstate) modelled? (FALSE: it stays empty)
           Emit, Only               \* Only = "dev": print a behaviour only when its last event records a deviation
 
 VARIABLES shape,    \* what the configured backend hands back for connRec (fixed per behaviour)
+          cas,      \* the backend's CompareAndSwap works (fixed per behaviour)
           fixes,    \* which repairs the code has (fixed per behaviour; {} = as-is)
           connRec, clientIdx, clock,
-          cst,      \* connection -> [st |-> "new"|"open"|"evicted"|"dead"|"closed", node, auth]
+          cst,      \* connection -> [st |-> "new"|"open"|"evicted"|"dead"|"closing"|"closed", node, auth, who]
+                    \*   auth = the client that completed a handshake on it; who = the client id the connection object
+                    \*   carries (set by the auth handler when the credential check passes, delivered or not)
                     \*   evicted = the server closed its stream (re-login on the node), dead = the peer is gone
-                    \*   (a write failed); both still await CloseConnection
+                    \*   (a write failed); both still await CloseConnection; closing = CloseConnection is in flight
           reg,      \* node -> client -> connection | "-"          (local ClientRegistry)
           last,     \* ghost: client -> connection of its most recent successful handshake | "-"
           hb,       \* ghost: connection -> handshake or heartbeat seen in the current tick
@@ -107,25 +166,36 @@ VARIABLES shape,    \* what the configured backend hands back for connRec (fixed
           lk,       \* the lookup in flight (at most one): [p, m, x, conn] - index read, record not yet
           lkDone,   \* ghost: client -> since its latest handshake a lookup completed whose index read was overtaken
           lkWrote,  \* ghost: some lookup modified the store
+          op,       \* the store operation in flight (at most one), parked in front of storage call op.pc
+          raced,    \* ghost: client -> since its latest handshake (or during it) an in-flight operation of it
+                    \*        overlapped another event of the same client
+          cstate,   \* client -> cloud-control client runtime state [node, conn] | NoState
+          sdev,     \* ghost: client -> deviation names of the client-state sub-model since its latest handshake
           hist
-vars == <<shape, fixes, connRec, clientIdx, clock, cst, reg, last, hb, alive, dev, lost, age, lk, lkDone, lkWrote, hist>>
+vars == <<shape, cas, fixes, connRec, clientIdx, clock, cst, reg, last, hb, alive, dev, lost, age, lk, lkDone, lkWrote, op, raced, cstate, sdev, hist>>
 \* lifetimes are kept as REMAINING ticks, so the state graph without the clock is finite and the
 \* exhaustive check covers sessions of any length; the generator keeps the clock to bound sleeps
-\* age influences nothing unless KeepCreatedAt (or the "long" generation filter) looks at it
-ageV    == IF KeepCreatedAt \/ Only \in {"long", "longre", "longs", "relong"} THEN age ELSE 0
-view    == <<shape, fixes, connRec, clientIdx, cst, reg, last, hb, alive, dev, lost, ageV, lk, lkDone, lkWrote>>
-genview == <<shape, fixes, connRec, clientIdx, clock, cst, reg, last, hb, alive, dev, lost, ageV, lk, lkDone, lkWrote>>
+\* age influences nothing unless KeepCreatedAt / RecRenew (or the "long" generation filter) looks at it
+ageV    == IF KeepCreatedAt \/ RecRenew = "fromCreated" \/ Only \in {"long", "longre", "longs", "relong"} THEN age ELSE 0
+view    == <<shape, cas, fixes, connRec, clientIdx, cst, reg, last, hb, alive, dev, lost, ageV, lk, lkDone, lkWrote, op, raced, cstate, sdev>>
+genview == <<shape, cas, fixes, connRec, clientIdx, clock, cst, reg, last, hb, alive, dev, lost, ageV, lk, lkDone, lkWrote, op, raced, cstate, sdev>>
 
 AllConns == <<"c1", "c2", "c3", "c4">>
 ConnName(i) == AllConns[i]
 ConnSet == {ConnName(i) : i \in 1..NConns}
 NoRec == [node |-> "-", client |-> "-", ttl |-> 0]     \* ttl = remaining lifetime in ticks, 0 = absent
 NoIdx == [conn |-> "-", ttl |-> 0]
-Fresh == [st |-> "new", node |-> "-", auth |-> "-"]
+Fresh == [st |-> "new", node |-> "-", auth |-> "-", who |-> "-"]
 NoLk  == [p |-> FALSE, m |-> "-", x |-> "-", conn |-> "-"]
+\* k: "-" none | "hb" RefreshConnection | "close" UnregisterConnection | "auth" RegisterConnection
+\* x: the client the session layer knows for c; rx: the client the record names (read by call 1 of Unregister)
+\* pts: outcome of the "does the index name c" read; w: close cause / "new"; ov: overlapped an event of x
+NoState == [node |-> "-", conn |-> "-"]
+NoOp  == [k |-> "-", n |-> "-", c |-> "-", x |-> "-", rx |-> "-", pc |-> 0, pts |-> FALSE, w |-> "-", ov |-> FALSE]
 
-AllFixes == {"ptrShape", "condIdxDelete", "hbRefresh", "successOnly"}
-Init == /\ shape \in Shapes /\ fixes \in FixSets
+AllFixes  == {"ptrShape", "condIdxDelete", "hbRefresh", "successOnly", "atomicRenew", "atomicDelete", "stateAfterDelivery", "kickDisconnects"}
+TreeFixes == {"ptrShape", "condIdxDelete", "hbRefresh", "successOnly"}          \* what /repo has (patches C08-1..4)
+Init == /\ shape \in Shapes /\ cas \in CasSet /\ fixes \in FixSets
         /\ connRec = [c \in ConnSet |-> NoRec]
         /\ clientIdx = [x \in Clients |-> NoIdx]
         /\ clock = 0
@@ -138,6 +208,8 @@ Init == /\ shape \in Shapes /\ fixes \in FixSets
         /\ lost = [x \in Clients |-> FALSE]
         /\ age = [c \in ConnSet |-> 0]
         /\ lk = NoLk /\ lkDone = [x \in Clients |-> FALSE] /\ lkWrote = FALSE
+        /\ op = NoOp /\ raced = [x \in Clients |-> FALSE]
+        /\ cstate = [x \in Clients |-> NoState] /\ sdev = [x \in Clients |-> {}]
         /\ hist = <<>>
 
 \* generation filter (evaluated on the step being taken; definitions further down):
@@ -154,6 +226,8 @@ Init == /\ shape \in Shapes /\ fixes \in FixSets
 \*   "first"  a first-connection handshake (server-assigned identity)
 \*   "reauth" a successful re-handshake on an already authenticated connection that is not (any
 \*           more) where the store locates the client
+\*   "race"   the last storage call of an in-flight store operation that overlapped another event of
+\*           the same client, the client being connected or all its connections closed afterwards
 ConnectedP(x) == last'[x] # "-" /\ cst'[last'[x]].st = "open" /\ alive'[last'[x]]
 AllClosedP(x) == \A c \in ConnSet : cst'[c].auth = x => cst'[c].st \in {"closed", "evicted"}
 WLost(e)  == \/ e.a = "AuthLost" /\ ConnectedP(e.x)
@@ -163,6 +237,7 @@ WLong(e)   == e.a \in {"Tick", "HB"} /\ \E x \in Clients : ConnectedP(x) /\ age'
 WLongRe(e) == e.a = "Auth" /\ cst[e.c].auth = e.x /\ age[e.c] >= TTL /\ alive[e.c]
 WReauth(e) == e.a = "Auth" /\ cst[e.c].auth = e.x
               /\ (last[e.x] # e.c \/ ~(clientIdx[e.x].ttl > 0 /\ clientIdx[e.x].conn = e.c))
+WRace(e)   == e.a = "OpStep" /\ e.w = "end" /\ op.ov /\ e.x # "-" /\ (ConnectedP(e.x) \/ AllClosedP(e.x))
 Wanted(e, foundBefore) ==
   CASE Only = "dev"   -> \E x \in Clients : dev'[x] \ dev[x] # {}
     [] Only = "lost"  -> WLost(e)
@@ -175,12 +250,13 @@ Wanted(e, foundBefore) ==
     [] Only = "relong" -> WLong(e) \/ WLongRe(e) \/ WReauth(e)
     [] Only = "first" -> e.a = "Auth" /\ e.w = "new"
     [] Only = "reauth" -> WReauth(e)
+    [] Only = "race"  -> WRace(e)
     [] OTHER -> TRUE
 LogK(a, n, c, x, w, foundBefore, keepLk) ==
   LET e == [a |-> a, n |-> n, c |-> c, x |-> x, w |-> w] IN
   /\ IF keepLk THEN UNCHANGED <<lk, lkDone, lkWrote>> ELSE TRUE
   /\ hist' = Append(hist, e)
-  /\ shape' = shape /\ fixes' = fixes
+  /\ shape' = shape /\ cas' = cas /\ fixes' = fixes
   /\ IF Emit /\ Wanted(e, foundBefore) THEN PrintT("BEH " \o ToJson(hist')) ELSE TRUE
 LogW(a, n, c, x, w, foundBefore) == LogK(a, n, c, x, w, foundBefore, TRUE)
 Log(a, n, c, x) == LogW(a, n, c, x, "-", FALSE)
@@ -200,18 +276,116 @@ FindIn(cr, ix, x, t) ==
           ELSE [r |-> gs, node |-> "-", conn |-> "-"]
 Find(x) == FindIn(connRec, clientIdx, x, clock)
 
-\* UnregisterConnection(c) applied to (cr, ix): new contents + whether it erased a foreign index
-Unreg(cr, ix, c) ==
-  LET gs == GetState(cr, c, clock)
-      x  == cr[c].client
-      hit == gs = "ok" /\ x # "-"
-      mine == hit /\ KeyLive(ix[x], clock) /\ ix[x].conn = c
-      foreign == hit /\ KeyLive(ix[x], clock) /\ ix[x].conn # c
-      del == IF "condIdxDelete" \in fixes THEN mine ELSE hit
-  IN [cr |-> [cr EXCEPT ![c] = NoRec],
-      ix |-> IF del THEN [ix EXCEPT ![x] = NoIdx] ELSE ix,
-      x  |-> x,
-      late |-> foreign /\ del]
+\* ---- the three writing store operations, one storage call per application ------------------
+\* each returns [o |-> operation after the call, fin |-> it was the last call, cr, ix |-> store after
+\* the call, dx |-> client a deviation is charged to, dv |-> deviation names]
+Points(ix, x, c) == x # "-" /\ KeyLive(ix[x], clock) /\ ix[x].conn = c
+AtomicRenew  == "atomicRenew" \in fixes
+AtomicDelete == "atomicDelete" \in fixes
+Res(o, fin, cr, ix, dx, dv) == [o |-> o, fin |-> fin, cr |-> cr, ix |-> ix, dx |-> dx, dv |-> dv]
+
+\* RefreshConnection(c): which of the calls 1..4 exist in the configured design
+HbIs(pc, pts) == CASE pc = 1 -> TRUE
+                   [] pc = 2 -> RecRenew # "none"
+                   [] pc = 3 -> IdxRenew \in {"checkSet", "cas"}
+                   [] pc = 4 -> IdxRenew = "blind" \/ (IdxRenew = "checkSet" /\ ~AtomicRenew /\ pts)
+                   [] OTHER -> FALSE
+HbNext(pc, pts) == IF \E q \in (pc + 1)..4 : HbIs(q, pts)
+                   THEN CHOOSE q \in (pc + 1)..4 : HbIs(q, pts) /\ \A r \in (pc + 1)..(q - 1) : ~HbIs(r, pts)
+                   ELSE 0
+HbGo(o, pts, cr, ix, dv) == LET q == HbNext(o.pc, pts) IN
+  Res([o EXCEPT !.pc = q, !.pts = pts], q = 0, cr, ix, o.x, dv)
+HbCall(o, cr, ix) ==
+  LET c == o.c  x == o.x  mine == Points(ix, x, c) IN
+  CASE o.pc = 1 ->      \* GetConnectionState(c): gone / unreadable => the refresh gives up
+         IF GetState(cr, c, clock) # "ok" THEN Res(o, TRUE, cr, ix, x, {})
+         ELSE HbGo(o, FALSE, cr, ix, (IF RecRenew = "none" THEN {"recNotRenewed"} ELSE {})
+                                     \cup (IF IdxRenew = "none" /\ mine THEN {"idxNotRenewed"} ELSE {}))
+    [] o.pc = 2 ->      \* Set(record, ttl)
+         LET left == IF RecRenew = "fromCreated" THEN TTL - age[c] ELSE TTL IN
+         HbGo(o, FALSE, [cr EXCEPT ![c] = IF left > 0 THEN [cr[c] EXCEPT !.ttl = left] ELSE NoRec], ix,
+              IF left > 0 THEN {} ELSE {"bornExpired"})
+    [] o.pc = 3 ->      \* Get(index) | CompareAndSwap(index, c, c, ttl) | (atomicRenew) compare-and-renew
+         IF IdxRenew = "cas"
+         THEN IF cas THEN HbGo(o, FALSE, cr, IF mine THEN [ix EXCEPT ![x].ttl = TTL] ELSE ix, {})
+              ELSE HbGo(o, FALSE, cr, ix, IF mine THEN {"idxNotRenewed"} ELSE {})     \* stub: error, logged only
+         ELSE IF AtomicRenew THEN HbGo(o, FALSE, cr, IF mine THEN [ix EXCEPT ![x].ttl = TTL] ELSE ix, {})
+         ELSE HbGo(o, mine, cr, ix, {})
+    [] o.pc = 4 ->      \* Set(index -> c, ttl): decided by an earlier read (or not at all)
+         HbGo(o, o.pts, cr, [ix EXCEPT ![x] = [conn |-> c, ttl |-> TTL]],
+              IF last[x] # c THEN {IF IdxRenew = "blind" THEN "blindRenew" ELSE "staleIdxWrite"} ELSE {})
+
+\* UnregisterConnection(c)
+UnCall(o, cr, ix) ==
+  LET c == o.c  cond == "condIdxDelete" \in fixes IN
+  CASE o.pc = 1 ->      \* GetConnectionState(c)
+         LET hit == GetState(cr, c, clock) = "ok" /\ cr[c].client # "-" IN
+         IF hit THEN Res([o EXCEPT !.rx = cr[c].client, !.pc = IF cond /\ ~AtomicDelete THEN 2 ELSE 3, !.pts = ~cond], FALSE, cr, ix, "-", {})
+         ELSE Res([o EXCEPT !.pc = 4], FALSE, cr, ix, "-", {})
+    [] o.pc = 2 ->      \* Get(index): does it still name c
+         LET mine == Points(ix, o.rx, c) IN
+         Res([o EXCEPT !.pts = mine, !.pc = IF mine THEN 3 ELSE 4], FALSE, cr, ix, "-", {})
+    [] o.pc = 3 ->      \* Delete(index): unconditional | decided by the earlier read | (atomicDelete) compare-and-delete
+         LET del == IF cond /\ AtomicDelete THEN Points(ix, o.rx, c) ELSE TRUE
+             foreign == KeyLive(ix[o.rx], clock) /\ ix[o.rx].conn # c
+         IN Res([o EXCEPT !.pc = 4], FALSE, cr, IF del THEN [ix EXCEPT ![o.rx] = NoIdx] ELSE ix, o.rx,
+                IF del /\ foreign THEN {IF cond THEN "staleIdxDelete" ELSE "lateCleanup"} ELSE {})
+    [] OTHER ->         \* Delete(record)
+         Res(o, TRUE, [cr EXCEPT ![c] = NoRec], ix, "-", {})
+
+\* RegisterConnection(c) for client o.x on node o.n (o.w = "new": first-connection handshake)
+RegCall(o, cr, ix) ==
+  LET c == o.c  x == o.x
+      byReq == UseRequestId /\ o.w = "new"                      \* record filled from the request: client id 0
+  IN
+  CASE o.pc = 1 ->      \* Set(record, ttl)
+         LET keep == KeepCreatedAt /\ GetState(cr, c, clock) = "ok"
+             left == IF keep THEN TTL - age[c] ELSE TTL
+         IN Res([o EXCEPT !.pc = 2], byReq,
+                [cr EXCEPT ![c] = IF left > 0 THEN [node |-> o.n, client |-> (IF byReq THEN "-" ELSE x), ttl |-> left] ELSE NoRec], ix, x,
+                (IF keep /\ age[c] >= TTL THEN {"bornExpired"} ELSE {}) \cup (IF byReq THEN {"unindexed"} ELSE {}))
+    [] OTHER ->         \* Set(index -> c, ttl)
+         Res(o, TRUE, cr, [ix EXCEPT ![x] = [conn |-> c, ttl |-> TTL]], x, {})
+
+Call(o, cr, ix) == CASE o.k = "hb" -> HbCall(o, cr, ix) [] o.k = "close" -> UnCall(o, cr, ix) [] OTHER -> RegCall(o, cr, ix)
+
+\* running an operation to its end (at most 4 calls)
+NoDevs == [x \in Clients |-> {}]
+St(o, cr, ix, dvs) == [o |-> o, fin |-> FALSE, cr |-> cr, ix |-> ix, dvs |-> dvs]
+Adv(s) == IF s.fin THEN s
+          ELSE LET r == Call(s.o, s.cr, s.ix) IN
+               [o |-> r.o, fin |-> r.fin, cr |-> r.cr, ix |-> r.ix,
+                dvs |-> IF r.dx \in Clients THEN [s.dvs EXCEPT ![r.dx] = @ \cup r.dv] ELSE s.dvs]
+Run(o, cr, ix, dvs) == Adv(Adv(Adv(Adv(St(o, cr, ix, dvs)))))
+OpOf(k, n, c, x, w) == [NoOp EXCEPT !.k = k, !.n = n, !.c = c, !.x = x, !.pc = 1, !.w = w]
+
+\* ---- in-flight bookkeeping ------------------------------------------------------------------
+Busy == op.k # "-"
+\* an atomic event on connection c of client x may fall into the window of the operation in flight?
+\*   not on the operation's own connection - except the server closing it under a parked heartbeat
+\*   (sweep / kick run on other goroutines); no second handshake of a client whose handshake is in flight
+MayEv(c, x, a, w) == IF Busy THEN /\ (op.c = c => op.k = "hb" /\ a = "Close" /\ w \in {"sweep", "kick"})
+                                  /\ ~(op.k = "auth" /\ a \in {"Auth", "AuthLost"} /\ x = op.x)
+                     ELSE TRUE
+Touch(x) == op' = IF Busy /\ op.x = x /\ x # "-" THEN [op EXCEPT !.ov = TRUE] ELSE op
+
+\* ---- the cloud-control client runtime state ----------------------------------------------------
+\* EnsureClientOnline(x, n, c): every heartbeat of an authenticated control connection
+HbState(n, c, x) ==
+  IF ClientState /\ cstate[x] = NoState
+  THEN /\ cstate' = [cstate EXCEPT ![x] = [node |-> n, conn |-> c]]
+       /\ sdev' = IF last[x] \notin {c, "-"} /\ cst[last[x]].st = "open"       \* the client is connected elsewhere
+                  THEN [sdev EXCEPT ![x] = @ \cup {"stateRebuiltStale"}] ELSE sdev
+  ELSE UNCHANGED <<cstate, sdev>>
+\* DisconnectClientIfMatch(who, n, c) in RemoveControlConnection / the sweep callback - if the registry
+\* still has the entry of c (a kick has dropped it)
+CloseState(n, c, w) ==
+  LET x == cst[c].who
+      entry == w # "kick" \/ "kickDisconnects" \in fixes IN
+  IF ClientState /\ x # "-" /\ cstate[x] = [node |-> n, conn |-> c]
+  THEN IF entry THEN cstate' = [cstate EXCEPT ![x] = NoState] /\ UNCHANGED sdev
+       ELSE UNCHANGED cstate /\ sdev' = [sdev EXCEPT ![x] = @ \cup {"stateKeptByKick"}]
+  ELSE UNCHANGED <<cstate, sdev>>
 
 \* ---- session-layer events ---------------------------------------------------------------
 NextConn == LET used == {i \in 1..NConns : cst[ConnName(i)].st # "new"}
@@ -219,38 +393,43 @@ NextConn == LET used == {i \in 1..NConns : cst[ConnName(i)].st # "new"}
 
 Connect(n, c) ==
   /\ c = NextConn
-  /\ cst' = [cst EXCEPT ![c] = [st |-> "open", node |-> n, auth |-> "-"]]
-  /\ UNCHANGED <<connRec, clientIdx, clock, reg, last, hb, alive, dev, lost, age>>
+  /\ cst' = [cst EXCEPT ![c] = [st |-> "open", node |-> n, auth |-> "-", who |-> "-"]]
+  /\ UNCHANGED <<connRec, clientIdx, clock, reg, last, hb, alive, dev, lost, age, op, raced, cstate, sdev>>
   /\ Log("Connect", n, c, "-")
 
 NeverSeen(x) == last[x] = "-" /\ ~lost[x]
-AuthOK(n, c, x, w) ==
+AuthGuard(n, c, x, w) ==
   /\ cst[c].st = "open" /\ cst[c].node = n /\ cst[c].auth \in {"-", x}
   /\ w \in {"-", "new"} /\ (w = "new" => cst[c].auth = "-" /\ NeverSeen(x))    \* an identity is issued once
-  /\ LET old == reg[n][x]
-         evict == old # "-" /\ old # c
-         u == IF evict THEN Unreg(connRec, clientIdx, old)
-              ELSE [cr |-> connRec, ix |-> clientIdx, x |-> "-", late |-> FALSE]
-         byReq == UseRequestId /\ w = "new"                      \* record filled from the request: client id 0
-         left == IF KeepCreatedAt /\ GetState(connRec, c, clock) = "ok" THEN TTL - age[c] ELSE TTL
-     IN /\ connRec' = [u.cr EXCEPT ![c] = IF left > 0 THEN [node |-> n, client |-> (IF byReq THEN "-" ELSE x), ttl |-> left] ELSE NoRec]
-        /\ clientIdx' = IF byReq THEN u.ix ELSE [u.ix EXCEPT ![x] = [conn |-> c, ttl |-> TTL]]
-        /\ cst' = [k \in ConnSet |-> IF k = c THEN [cst[c] EXCEPT !.auth = x]
-                                      ELSE IF evict /\ k = old THEN [cst[k] EXCEPT !.st = "evicted"]
-                                      ELSE cst[k]]
-        /\ reg' = [reg EXCEPT ![n][x] = c]
-        /\ dev' = [y \in Clients |->
-                     IF y = x THEN (IF shape \in Accepted THEN {} ELSE {"shape"})
-                                    \cup (IF UseRequestId /\ w = "new" THEN {"unindexed"} ELSE {})
-                                    \cup (IF KeepCreatedAt /\ GetState(connRec, c, clock) = "ok" /\ age[c] >= TTL THEN {"bornExpired"} ELSE {})
-                     ELSE IF u.late /\ y = u.x THEN dev[y] \cup {"lateCleanup"} ELSE dev[y]]
+\* the session-layer part of a successful handshake and the eviction of the node's older connection of x
+\* (UnregisterConnection(old), all its calls); u = the store after it
+AuthSession(n, c, x, u, evict, old) ==
+  /\ cst' = [k \in ConnSet |-> IF k = c THEN [cst[c] EXCEPT !.auth = x, !.who = x]
+                                ELSE IF evict /\ k = old THEN [cst[k] EXCEPT !.st = "evicted"]
+                                ELSE cst[k]]
+  /\ reg' = [reg EXCEPT ![n][x] = c]
   /\ last' = [last EXCEPT ![x] = c]
   /\ hb' = [hb EXCEPT ![c] = TRUE]
   /\ alive' = [alive EXCEPT ![c] = TRUE]
   /\ lost' = [lost EXCEPT ![x] = FALSE]
   /\ lkDone' = [lkDone EXCEPT ![x] = FALSE]
   /\ age' = IF cst[c].auth = x THEN age ELSE [age EXCEPT ![c] = 0]
+  /\ cstate' = IF ClientState THEN [cstate EXCEPT ![x] = [node |-> n, conn |-> c]] ELSE cstate        \* ConnectClient
+  /\ sdev' = [sdev EXCEPT ![x] = {}]
   /\ UNCHANGED <<clock, lk, lkWrote>>
+AuthDev(x, dvs) == [y \in Clients |-> IF y = x THEN (IF shape \in Accepted THEN {} ELSE {"shape"}) \cup dvs[x]
+                                      ELSE dev[y] \cup dvs[y]]
+AuthOK(n, c, x, w) ==
+  /\ AuthGuard(n, c, x, w) /\ MayEv(c, x, "Auth", w)
+  /\ LET old == reg[n][x]
+         evict == old # "-" /\ old # c
+         u == IF evict THEN Run(OpOf("close", n, old, x, "-"), connRec, clientIdx, NoDevs)
+              ELSE St(NoOp, connRec, clientIdx, NoDevs)
+         r == Run(OpOf("auth", n, c, x, w), u.cr, u.ix, [u.dvs EXCEPT ![x] = {}])
+     IN /\ connRec' = r.cr /\ clientIdx' = r.ix
+        /\ dev' = AuthDev(x, r.dvs)
+        /\ AuthSession(n, c, x, u, evict, old)
+  /\ Touch(x) /\ raced' = [raced EXCEPT ![x] = FALSE]
   /\ LogK("Auth", n, c, x, w, FALSE, FALSE)
 
 \* credential check passed, response undeliverable: handleHandshake returns before its registry
@@ -259,27 +438,33 @@ AuthOK(n, c, x, w) ==
 \* handshake: it re-registers c (reg[n][x] = c holds for such a connection - a later login of x on
 \* n would have evicted it - so nothing is evicted).
 AuthLost(n, c, x) ==
-  /\ cst[c].st = "open" /\ cst[c].node = n /\ cst[c].auth \in {"-", x}
-  /\ cst' = [cst EXCEPT ![c].st = "dead"]
+  /\ cst[c].st = "open" /\ cst[c].node = n /\ cst[c].auth \in {"-", x} /\ MayEv(c, x, "AuthLost", "-")
+  /\ cst' = [cst EXCEPT ![c].st = "dead", ![c].who = x]
   /\ lost' = [lost EXCEPT ![x] = TRUE]
   /\ IF cst[c].auth = x /\ "successOnly" \notin fixes
      THEN /\ connRec' = [connRec EXCEPT ![c] = [node |-> n, client |-> x, ttl |-> TTL]]
           /\ clientIdx' = [clientIdx EXCEPT ![x] = [conn |-> c, ttl |-> TTL]]
           /\ dev' = IF last[x] # c THEN [dev EXCEPT ![x] = @ \cup {"phase1Moves"}] ELSE dev
      ELSE UNCHANGED <<connRec, clientIdx, dev>>
-  /\ UNCHANGED <<clock, reg, last, hb, alive, age>>
+  /\ Touch(x)
+  /\ IF ~ClientState \/ "stateAfterDelivery" \in fixes THEN UNCHANGED <<cstate, sdev>>
+     ELSE /\ cstate' = [cstate EXCEPT ![x] = [node |-> n, conn |-> c]]      \* ConnectClient ran before the write failed
+          /\ sdev' = IF last[x] # c THEN [sdev EXCEPT ![x] = @ \cup {"stateMovedByLost"}] ELSE sdev
+  /\ UNCHANGED <<clock, reg, last, hb, alive, age, raced>>
   /\ Log("AuthLost", n, c, x)
 
+HbGuard(n, c) == cst[c].st = "open" /\ cst[c].node = n /\ cst[c].auth # "-"
 Heartbeat(n, c) ==
-  /\ cst[c].st = "open" /\ cst[c].node = n /\ cst[c].auth # "-"
+  /\ HbGuard(n, c) /\ MayEv(c, cst[c].auth, "HB", "-")
   /\ hb' = [hb EXCEPT ![c] = TRUE]
-  /\ LET x == cst[c].auth IN
-     IF "hbRefresh" \in fixes /\ GetState(connRec, c, clock) = "ok"
-     THEN /\ connRec' = [connRec EXCEPT ![c].ttl = TTL]
-          /\ clientIdx' = IF KeyLive(clientIdx[x], clock) /\ clientIdx[x].conn = c
-                          THEN [clientIdx EXCEPT ![x].ttl = TTL] ELSE clientIdx
-     ELSE UNCHANGED <<connRec, clientIdx>>
-  /\ UNCHANGED <<clock, cst, reg, last, alive, dev, lost, age>>
+  /\ LET x == cst[c].auth
+         r == IF "hbRefresh" \in fixes THEN Run(OpOf("hb", n, c, x, "-"), connRec, clientIdx, NoDevs)
+              ELSE St(NoOp, connRec, clientIdx, NoDevs)
+     IN /\ connRec' = r.cr /\ clientIdx' = r.ix
+        /\ dev' = [y \in Clients |-> dev[y] \cup r.dvs[y]]
+        /\ Touch(x)
+        /\ HbState(n, c, x)
+  /\ UNCHANGED <<clock, cst, reg, last, alive, lost, age, raced>>
   /\ Log("HB", n, c, cst[c].auth)
 
 \* CloseConnection(c), by cause w
@@ -289,28 +474,76 @@ CanClose(n, c, w) ==
        [] w \in {"cmd", "sweep"} -> cst[c].st = "open" /\ cst[c].auth # "-"      \* a registered control connection
        [] w = "kick" -> cst[c].st = "open" /\ cst[c].auth # "-" /\ reg[n][cst[c].auth] = c
 CloseEffect(n, c, w) ==
-  /\ CanClose(n, c, w)
-  /\ LET u == Unreg(connRec, clientIdx, c) x == cst[c].auth IN
-     /\ connRec' = u.cr /\ clientIdx' = u.ix
-     /\ dev' = IF u.late THEN [dev EXCEPT ![u.x] = @ \cup {"lateCleanup"}] ELSE dev
+  /\ CanClose(n, c, w) /\ MayEv(c, cst[c].auth, "Close", w)
+  /\ LET x == cst[c].auth
+         r == Run(OpOf("close", n, c, x, w), connRec, clientIdx, NoDevs) IN
+     /\ connRec' = r.cr /\ clientIdx' = r.ix
+     /\ dev' = [y \in Clients |-> dev[y] \cup r.dvs[y]]
      /\ reg' = IF x # "-" /\ reg[n][x] = c THEN [reg EXCEPT ![n][x] = "-"] ELSE reg
+     /\ Touch(x)
+  /\ CloseState(n, c, w)
   /\ cst' = [cst EXCEPT ![c].st = "closed"]
-  /\ UNCHANGED <<clock, last, hb, alive, lost, age>>
+  /\ UNCHANGED <<clock, last, hb, alive, lost, age, raced>>
 
 Superseded(c) == cst[c].auth # "-" /\ last[cst[c].auth] # c
 FoundNow(c) == cst[c].auth # "-" /\ Find(cst[c].auth).r = "found"
 Close(n, c, w)       == ~Superseded(c) /\ CloseEffect(n, c, w) /\ LogW("Close", n, c, cst[c].auth, w, FoundNow(c))
 LateCleanup(n, c, w) == Superseded(c)  /\ CloseEffect(n, c, w) /\ LogW("Late", n, c, cst[c].auth, w, FoundNow(c))
 
+\* ---- the same events with their store operation running call by call -------------------------
+\* OpBegin: the session-layer part; the store operation is left parked in front of its first call
+CanBegin == InFlight /\ ~Busy /\ ~lk.p
+BeginHb(n, c) ==
+  /\ CanBegin /\ HbGuard(n, c) /\ "hbRefresh" \in fixes
+  /\ hb' = [hb EXCEPT ![c] = TRUE]
+  /\ op' = OpOf("hb", n, c, cst[c].auth, "-")
+  /\ HbState(n, c, cst[c].auth)
+  /\ UNCHANGED <<connRec, clientIdx, clock, cst, reg, last, alive, dev, lost, age, raced>>
+  /\ LogW("OpBegin", n, c, cst[c].auth, "hb", FALSE)
+BeginClose(n, c, w) ==
+  /\ CanBegin /\ CanClose(n, c, w)
+  /\ LET x == cst[c].auth IN
+     /\ reg' = IF x # "-" /\ reg[n][x] = c THEN [reg EXCEPT ![n][x] = "-"] ELSE reg
+     /\ op' = OpOf("close", n, c, x, w)
+  /\ cst' = [cst EXCEPT ![c].st = "closing"]
+  /\ CloseState(n, c, w)
+  /\ UNCHANGED <<connRec, clientIdx, clock, last, hb, alive, dev, lost, age, raced>>
+  /\ LogW("OpBegin", n, c, cst[c].auth, w, FALSE)
+BeginAuth(n, c, x) ==
+  /\ CanBegin /\ AuthGuard(n, c, x, "-")
+  /\ LET old == reg[n][x]
+         evict == old # "-" /\ old # c
+         u == IF evict THEN Run(OpOf("close", n, old, x, "-"), connRec, clientIdx, NoDevs)
+              ELSE St(NoOp, connRec, clientIdx, NoDevs)
+     IN /\ connRec' = u.cr /\ clientIdx' = u.ix
+        /\ dev' = AuthDev(x, [u.dvs EXCEPT ![x] = {}])
+        /\ AuthSession(n, c, x, u, evict, old)
+  /\ op' = OpOf("auth", n, c, x, "-")
+  /\ raced' = [raced EXCEPT ![x] = FALSE]
+  /\ LogK("OpBegin", n, c, x, "auth", FALSE, FALSE)
+\* OpStep: the next storage call of the operation in flight
+OpStep ==
+  /\ Busy
+  /\ UNCHANGED <<clock, reg, last, hb, alive, lost, age, cstate, sdev>>
+  /\ LET r == Call(op, connRec, clientIdx) IN
+     /\ connRec' = r.cr /\ clientIdx' = r.ix
+     /\ dev' = IF r.dx \in Clients THEN [dev EXCEPT ![r.dx] = @ \cup r.dv] ELSE dev
+     /\ op' = IF r.fin THEN NoOp ELSE r.o
+     /\ cst' = IF r.fin /\ op.k = "close" THEN [cst EXCEPT ![op.c].st = "closed"] ELSE cst
+     /\ raced' = IF r.fin /\ op.x # "-" THEN [raced EXCEPT ![op.x] = @ \/ op.ov] ELSE raced
+     /\ LogW("OpStep", op.n, op.c, op.x, IF r.fin THEN "end" ELSE "-", FALSE)
+
 \* ---- FindClientNode as its two storage reads ------------------------------------------------
 LkBegin(m, x) ==
-  /\ Lookups /\ ~lk.p /\ KeyLive(clientIdx[x], clock)            \* an absent index ends the lookup at once
+  /\ Lookups /\ ~lk.p /\ ~Busy /\ KeyLive(clientIdx[x], clock)            \* an absent index ends the lookup at once
   /\ lk' = [p |-> TRUE, m |-> m, x |-> x, conn |-> clientIdx[x].conn]
-  /\ UNCHANGED <<connRec, clientIdx, clock, cst, reg, last, hb, alive, dev, lost, age, lkDone, lkWrote>>
+  /\ UNCHANGED <<connRec, clientIdx, clock, cst, reg, last, hb, alive, dev, lost, age, lkDone, lkWrote, op, raced, cstate, sdev>>
   /\ LogK("LkBegin", m, "-", x, "-", FALSE, FALSE)
 
 LkEnd(m) ==
   /\ lk.p /\ lk.m = m
+  /\ lk' = NoLk
+  /\ UNCHANGED <<connRec, clock, cst, reg, last, hb, alive, lost, age, op, raced, cstate, sdev>>
   /\ LET x == lk.x
          gone == GetState(connRec, lk.conn, clock) = "notfound"
          idxLive == KeyLive(clientIdx[x], clock)
@@ -321,11 +554,9 @@ LkEnd(m) ==
         /\ dev' = IF erase /\ clientIdx[x].conn # lk.conn THEN [dev EXCEPT ![x] = @ \cup {"lookupErased"}] ELSE dev
         /\ lkDone' = [lkDone EXCEPT ![x] = @ \/ overtaken]
         /\ LogK("LkEnd", m, "-", x, "-", FALSE, FALSE)
-  /\ lk' = NoLk
-  /\ UNCHANGED <<connRec, clock, cst, reg, last, hb, alive, lost, age>>
 
 Tick ==
-  /\ clock < MaxClock
+  /\ clock < MaxClock /\ ~Busy
   /\ clock' = clock + 1
   /\ alive' = [c \in ConnSet |-> alive[c] /\ (cst[c].st # "open" \/ hb[c])]
   /\ hb' = [c \in ConnSet |-> FALSE]
@@ -337,36 +568,57 @@ Tick ==
   /\ connRec' = [c \in ConnSet |-> IF connRec[c].ttl <= 1 THEN NoRec ELSE [connRec[c] EXCEPT !.ttl = @ - 1]]
   /\ clientIdx' = [x \in Clients |-> IF clientIdx[x].ttl <= 1 THEN NoIdx ELSE [clientIdx[x] EXCEPT !.ttl = @ - 1]]
   /\ age' = [c \in ConnSet |-> IF cst[c].auth # "-" /\ cst[c].st = "open" /\ age[c] < TTL THEN age[c] + 1 ELSE age[c]]
-  /\ UNCHANGED <<cst, reg, last, lost>>
+  /\ UNCHANGED <<cst, reg, last, lost, op, raced, cstate, sdev>>
   /\ Log("Tick", "-", "-", "-")
 
 Next == \/ Tick
+        \/ OpStep
         \/ \E m \in Nodes : LkEnd(m) \/ \E x \in Clients : LkBegin(m, x)
         \/ \E n \in Nodes, c \in ConnSet :
-             \/ Connect(n, c) \/ Heartbeat(n, c)
-             \/ \E w \in Causes : Close(n, c, w) \/ LateCleanup(n, c, w)
-             \/ \E x \in Clients : AuthOK(n, c, x, "-") \/ AuthOK(n, c, x, "new") \/ AuthLost(n, c, x)
+             \/ Connect(n, c) \/ Heartbeat(n, c) \/ BeginHb(n, c)
+             \/ \E w \in Causes : Close(n, c, w) \/ LateCleanup(n, c, w) \/ BeginClose(n, c, w)
+             \/ \E x \in Clients : AuthOK(n, c, x, "-") \/ AuthOK(n, c, x, "new") \/ AuthLost(n, c, x) \/ BeginAuth(n, c, x)
 Spec == Init /\ [][Next]_vars
 
 Bounded == Len(hist) <= MaxHist
 
 \* ---- the property -------------------------------------------------------------------------
+\* nothing is demanded for a client while a store operation of one of its connections is in flight
+\* (its handshake / close has begun but not ended)
+Quiet(x) == ~(Busy /\ op.x = x)
 Connected(x) == last[x] # "-" /\ cst[last[x]].st = "open" /\ alive[last[x]]
 Right(x) == Find(x) = [r |-> "found", node |-> cst[last[x]].node, conn |-> last[x]]
 AllClosed(x) == \A c \in ConnSet : cst[c].auth = x => cst[c].st \in {"closed", "evicted"}
 
-FindLive      == \A x \in Clients : Connected(x) => Right(x)
-FindLiveOrDev == \A x \in Clients : Connected(x) => (Right(x) \/ dev[x] # {})
-FindClosed    == \A x \in Clients : (last[x] # "-" /\ AllClosed(x)) => Find(x).r # "found"
+FindLive      == \A x \in Clients : (Connected(x) /\ Quiet(x)) => Right(x)
+FindLiveOrDev == \A x \in Clients : (Connected(x) /\ Quiet(x)) => (Right(x) \/ dev[x] # {})
+FindClosed    == \A x \in Clients : (last[x] # "-" /\ AllClosed(x) /\ Quiet(x)) => Find(x).r # "found"
 NoDev         == \A x \in Clients : dev[x] = {}
 LookupPure    == ~lkWrote
 Repaired      == fixes = AllFixes => (FindLive /\ NoDev)
+\* the tree as it is: sound for atomic events; with store operations in flight only through the two
+\* check-then-write deviations
+RepairedTree  == fixes = TreeFixes => IF InFlight THEN \A x \in Clients : dev[x] \subseteq {"staleIdxWrite", "staleIdxDelete"}
+                                      ELSE FindLive /\ NoDev
+
+\* the client runtime state
+StateRight(x) == cstate[x] = [node |-> cst[last[x]].node, conn |-> last[x]]
+StateLive        == ClientState => \A x \in Clients : (Connected(x) /\ Quiet(x)) => StateRight(x)
+StateLiveOrDev   == ClientState => \A x \in Clients : (Connected(x) /\ Quiet(x)) => (StateRight(x) \/ sdev[x] # {})
+StateClosed      == \A x \in Clients : (last[x] # "-" /\ AllClosed(x) /\ Quiet(x)) => cstate[x] = NoState
+StateClosedOrDev == \A x \in Clients : (last[x] # "-" /\ AllClosed(x) /\ Quiet(x)) => (cstate[x] = NoState \/ sdev[x] # {})
+StateRepaired    == {"stateAfterDelivery", "kickDisconnects"} \subseteq fixes =>
+                      (StateLive /\ StateClosed /\ \A x \in Clients : sdev[x] = {})
 
 \* the shared store is one store: every reachable record belongs to a connection that
 \* registered, and an index never names a connection of another client
 IndexSound == \A x \in Clients : KeyLive(clientIdx[x], clock) => cst[clientIdx[x].conn].auth = x
 
+DevNames == {"shape", "lateCleanup", "ttlLapse", "phase1Moves", "lookupErased", "unindexed", "bornExpired",
+             "staleIdxWrite", "staleIdxDelete", "idxNotRenewed", "recNotRenewed", "blindRenew"}
 TypeOK == /\ clock \in 0..MaxClock
-          /\ \A c \in ConnSet : cst[c].st \in {"new", "open", "evicted", "dead", "closed"}
-          /\ \A x \in Clients : last[x] \in ConnSet \cup {"-"} /\ dev[x] \subseteq {"shape", "lateCleanup", "ttlLapse", "phase1Moves", "lookupErased", "unindexed", "bornExpired"}
+          /\ \A c \in ConnSet : cst[c].st \in {"new", "open", "evicted", "dead", "closing", "closed"}
+          /\ \A x \in Clients : last[x] \in ConnSet \cup {"-"} /\ dev[x] \subseteq DevNames
+          /\ op.k \in {"-", "hb", "close", "auth"} /\ op.pc \in 0..4
+          /\ \A x \in Clients : sdev[x] \subseteq {"stateMovedByLost", "stateRebuiltStale", "stateKeptByKick"}
 =============================================================================
